@@ -90,6 +90,26 @@ __CPROVER_ensures(HSZ(s) == __CPROVER_old(s->history.size))
 ''',
 }
 
+# --- executeCmd: the producer of the "args is not empty" precondition every command handler relies on (args[0] is the command word)
+CMDS = ['executeLsCmd', 'executePwdCmd', 'executeCdCmd', 'executeHelpCmd', 'executeHistoryCmd', 'executeExitCmd', 'executeTreeCmd', 'executeRunHistoryCmd', 'executeUserCmd']
+SPLIT = 'util_SplitCmdline'
+SPEC_EXEC = {('prelude_early',): EARLY,
+    ('stub', SEND): True, ('contract', SEND): '__CPROVER_requires(1)\n__CPROVER_assigns()\n__CPROVER_ensures(1)\n',
+    # the splitter may succeed with NO words at all (a command part of blanks only): any count 0..7
+    ('stub', SPLIT): True, ('contract', SPLIT): '__CPROVER_requires(__CPROVER_rw_ok(args, sizeof(*args)))\n__CPROVER_assigns(*args)\n__CPROVER_ensures(args->size < 8 && __CPROVER_is_fresh(args->data, 8 * sizeof(struct v_str)))\n',
+    ('contract', PFX + 'executeCmd'): REQ + r"""
+__CPROVER_requires(__CPROVER_is_fresh(cmdline, sizeof(*cmdline)) && cmdline->size < V_MAXSZ - 8)
+__CPROVER_assigns(s->curr_input, __exc, g_handlers)
+__CPROVER_ensures(__exc == 0 && g_handlers <= 1)        /* at most one handler per command line, no exception, no index outside the word list */
+""",
+    ('ghost', PFX + 'executeCmd', 'entry'): 'g_handlers = 0;',
+}
+for _c in CMDS:
+    SPEC_EXEC[('stub', PFX + _c)] = True
+    # every handler reads args[0] (and more after checking size()): it may be called only with at least the command word
+    _a = '_p1' if _c in ('executePwdCmd', 'executeHistoryCmd', 'executeExitCmd') else 'args'      # handlers that ignore their word list leave the parameter unnamed
+    SPEC_EXEC[('contract', PFX + _c)] = '__CPROVER_requires(' + _a + '->size >= 1 && g_handlers == 0)\n__CPROVER_assigns(s->curr_input, g_handlers)\n__CPROVER_ensures(g_handlers == 1 && s->curr_input.size < V_MAXSZ - 8)\n'
+
 H = lambda body: '\nvoid H(void)\n{\n  __exc = 0;\n' + body + '\n  __CPROVER_assert(0, "VACUITY-CANARY");\n}\n'
 def HK(fn, extra=''): return H('  struct v_TermImpl *t; struct terminal_SessionContext *s; %s %s(t, s%s);' % ('char ch;' if extra else '', PFX + fn, extra))
 OPQ = {'tbox::terminal::Terminal::Impl': 'struct v_TermImpl', 'Path': 'struct v_Path', 'tbox::terminal::Connection': 'struct v_Conn'}
@@ -117,4 +137,10 @@ UNITS = [
              targets=[Target('executeRunHistoryCmd', H('  struct v_TermImpl *t; struct terminal_SessionContext *s; struct v_vec_v_str *a; %sexecuteRunHistoryCmd(t, s, a);' % PFX),
                              enforce=PFX + 'executeRunHistoryCmd', replace=[SEND, PFX + 'execute'],
                              clause='!n / !-n / !!: any stoi result or exception, any history length 0..20: addressed entry exists or an error is sent; nothing escapes')]),
+    UnitSpec(name='execute_cmd', tu='modules/terminal/impl/terminal_commands.cpp', filter='tbox::terminal', more_filters=[('modules/terminal/impl/terminal_commands.cpp', 'tbox::cabinet'), ('modules/terminal/impl/terminal_commands.cpp', 'tbox::util')],
+             spec=SPEC_EXEC, prelude=PRELUDE + 'static size_t g_handlers;\n', plugins=PL(), model_headers=['vec_model.h', 'misc_model.h'], opaque_records=OPQ,
+             emit=['tbox::terminal::Terminal::Impl::executeCmd'],
+             targets=[Target('executeCmd', H('  struct v_TermImpl *t; struct terminal_SessionContext *s; struct v_str *c; %sexecuteCmd(t, s, c);' % PFX),
+                             enforce=PFX + 'executeCmd', replace=[SEND, SPLIT] + [PFX + c for c in CMDS], sat='cadical', timeout=600,
+                             clause='executeCmd: a handler is called only with a non-empty word list (blank-only command parts included), at most one handler per line, nothing escapes')]),
 ]
